@@ -173,6 +173,11 @@ def float_to_fix(signed, n_bits, n_frac):
     mask = int(2**n_bits - 1)
     min_v, max_v = validate_fp_params(signed, n_bits, n_frac)
 
+    # Largest representable (integer) value. NB: for formats with more than 53
+    # integer bits `max_v` is rounded up when converted to a float so clipping
+    # against it is not sufficient to saturate the result.
+    max_int = (1 << (n_bits - (1 if signed else 0))) - 1
+
     # Saturate values
     def bitsk(value):
         """Convert a floating point value to a fixed point value.
@@ -187,7 +192,7 @@ def float_to_fix(signed, n_bits, n_frac):
         if value < 0:
             fp_val = (1 << n_bits) + int(value * 2**n_frac)
         else:
-            fp_val = int(value * 2**n_frac)
+            fp_val = min(int(value * 2**n_frac), max_int)
 
         assert 0 <= fp_val < 1 << (n_bits + 1)
         return fp_val & mask
